@@ -17,6 +17,7 @@ pub fn use_def(
             il::RefFunctionLocation::Instruction(_, instruction) => instruction
                 .operation()
                 .scalars_read()
+                .unwrap_or_default()
                 .into_iter()
                 .fold(LocationSet::new(), |mut defs, scalar_read| {
                     rd[location].locations().iter().for_each(|rd| {
@@ -27,6 +28,7 @@ pub fn use_def(
                             .unwrap()
                             .operation()
                             .scalars_written()
+                            .unwrap_or_default()
                             .into_iter()
                             .for_each(|scalar_written| {
                                 if scalar_written == scalar_read {
